@@ -163,11 +163,13 @@ func runCheck(def *CheckDef, tier string, seed int64, repo string, workers int, 
 	}
 	timeout := 30000
 	cross := 0
+	crossTmo := 4 // seconds per cross-checked query and solver
 	if tier == "thorough" {
 		timeout = 300000
-		cross = 1
+		cross = 12 // sampled queries per worker
+		crossTmo = 20
 	} else {
-		cross = 25
+		cross = 3
 	}
 	if v := os.Getenv("VERIF_CROSS"); v != "" {
 		cross, _ = strconv.Atoi(v)
@@ -182,8 +184,10 @@ func runCheck(def *CheckDef, tier string, seed int64, repo string, workers int, 
 	close(next)
 	var mu sync.Mutex
 	done := 0
+	var sampled []smt.SampledQuery
 	for w := 0; w < workers; w++ {
 		wg.Add(1)
+		wid := w
 		go func() {
 			defer wg.Done()
 			sol, err := smt.New(timeout)
@@ -192,8 +196,13 @@ func runCheck(def *CheckDef, tier string, seed int64, repo string, workers int, 
 			}
 			defer sol.Close()
 			if cross > 0 {
-				sol.EnableCross(cross)
+				sol.SetSampling(cross, seed+int64(wid)*7919)
 			}
+			defer func() {
+				mu.Lock()
+				sampled = append(sampled, sol.Samples...)
+				mu.Unlock()
+			}()
 			for i := range next {
 				results[i] = eng.RunJob(jobs[i], sol, sym.RunOpts{OpenKnown: open, Seed: seed, SampleEvery: 3})
 				mu.Lock()
@@ -207,6 +216,9 @@ func runCheck(def *CheckDef, tier string, seed int64, repo string, workers int, 
 		}()
 	}
 	wg.Wait()
+	exploreS := time.Since(t0).Seconds() - loadS
+	// ---- out-of-band solver cross-check of the sampled queries (one-shot z3 4.8.12 and cvc5 processes)
+	crossRes := crossCheckSamples(sampled, filepath.Join(vd, ".work", fmt.Sprintf("%s-x-%d", def.ID, os.Getpid())), crossTmo)
 
 	// ---- gather
 	var inconcl []string
@@ -246,11 +258,26 @@ func runCheck(def *CheckDef, tier string, seed int64, repo string, workers int, 
 	}
 	perLabel := map[string]int{}
 	var vsel []sym.ViolationRec
+	maxRepl := 24
+	if v := os.Getenv("VERIF_MAXREPLAY"); v != "" {
+		maxRepl, _ = strconv.Atoi(v)
+	}
 	for _, v := range viols {
 		k := v.Kind + "|" + v.Label
 		perLabel[k]++
-		if perLabel[k] <= 2 && len(vsel) < 12 {
+		if perLabel[k] <= 1 && len(vsel) < maxRepl {
 			vsel = append(vsel, v)
+		}
+	}
+	if len(perLabel) > 0 {
+		ks := make([]string, 0, len(perLabel))
+		for k := range perLabel {
+			ks = append(ks, k)
+		}
+		sort.Strings(ks)
+		fmt.Printf("  %d distinct violated obligations (%d counterexamples):\n", len(ks), len(viols))
+		for _, k := range ks {
+			fmt.Printf("    %4d x %s\n", perLabel[k], k)
 		}
 	}
 	type item struct {
@@ -372,9 +399,16 @@ func runCheck(def *CheckDef, tier string, seed int64, repo string, workers int, 
 		fmt.Printf("INCONCLUSIVE property=%s %s\n", def.ID, firstLines(s, 3))
 	}
 	wall := time.Since(t0)
+	if crossRes.Disagree > 0 {
+		inconcl = append(inconcl, fmt.Sprintf("solver cross-check disagreement: %v", crossRes.Detail))
+		if exit == 0 {
+			exit = 2
+		}
+	}
+	lastCross = crossRes
 	ev := writeEvidence(def, tier, seed, results, items2samples(vsel, knownBy, kids), wall, inconcl, validated, mismatches, knownLines, violLines)
-	fmt.Printf("%s tier=%s exit=%d jobs=%d paths=%d queries(sat/unsat/unknown)=%d/%d/%d solver=%.1fs load=%.1fs wall=%.1fs validated=%d\n",
-		def.ID, tier, exit, len(jobs), ev.paths, ev.sat, ev.unsat, ev.unknown, ev.solverS, loadS, wall.Seconds(), validated)
+	fmt.Printf("%s tier=%s exit=%d jobs=%d paths=%d queries(sat/unsat/unknown)=%d/%d/%d solver=%.1fs load=%.1fs explore=%.1fs wall=%.1fs validated=%d\n",
+		def.ID, tier, exit, len(jobs), ev.paths, ev.sat, ev.unsat, ev.unknown, ev.solverS, loadS, exploreS, wall.Seconds(), validated)
 	return exit
 }
 
@@ -418,6 +452,69 @@ func trimVals(t sym.Tape) map[string]uint64 {
 	return m
 }
 
+type crossResult struct {
+	Queries, Runs, Agree, Disagree, NoVerdict int
+	Detail                                   []string
+}
+
+var lastCross crossResult
+
+func crossCheckSamples(qs []smt.SampledQuery, dir string, seconds int) crossResult {
+	var cr crossResult
+	if len(qs) == 0 {
+		return cr
+	}
+	os.MkdirAll(dir, 0o755)
+	defer os.RemoveAll(dir)
+	type task struct {
+		i    int
+		kind smt.Kind
+	}
+	var kinds []smt.Kind
+	for _, k := range []smt.Kind{smt.Z3, smt.Z3New, smt.CVC5} {
+		if k != smt.Primary {
+			kinds = append(kinds, k)
+		}
+	}
+	tasks := make(chan task, len(qs)*len(kinds))
+	for i, q := range qs {
+		os.WriteFile(filepath.Join(dir, fmt.Sprintf("q%d.smt2", i)), []byte(q.Script), 0o644)
+		for _, k := range kinds {
+			tasks <- task{i, k}
+		}
+	}
+	close(tasks)
+	cr.Queries = len(qs)
+	var mu sync.Mutex
+	var wg sync.WaitGroup
+	for w := 0; w < 16; w++ {
+		wg.Add(1)
+		go func() {
+			defer wg.Done()
+			for t := range tasks {
+				v := smt.CrossCheck(t.kind, filepath.Join(dir, fmt.Sprintf("q%d.smt2", t.i)), seconds)
+				mu.Lock()
+				cr.Runs++
+				switch {
+				case v == "":
+					cr.NoVerdict++
+				case v == qs[t.i].Verdict.String():
+					cr.Agree++
+				default:
+					cr.Disagree++
+					keep := filepath.Join(verifDir(), "replays", fmt.Sprintf("solver-disagreement-%d.smt2", t.i))
+					os.MkdirAll(filepath.Dir(keep), 0o755)
+					os.WriteFile(keep, []byte(qs[t.i].Script), 0o644)
+					cr.Detail = append(cr.Detail, fmt.Sprintf("%s says %s, primary %s says %s (%s)", t.kind, v, smt.Primary, qs[t.i].Verdict, keep))
+				}
+				mu.Unlock()
+			}
+		}()
+	}
+	wg.Wait()
+	return cr
+}
+
 type evSummary struct {
 	paths               int
 	sat, unsat, unknown int
@@ -431,7 +528,7 @@ func writeEvidence(def *CheckDef, tier string, seed int64, results []*sym.JobRes
 	obligations, trivial := 0, 0
 	covers := map[string]int{}
 	asserts := map[string]int{}
-	crossQ, crossD := 0, 0
+	
 	var samples []interface{}
 	pathsByEnd := map[string]int{}
 	var maxQ time.Duration
@@ -446,8 +543,6 @@ func writeEvidence(def *CheckDef, tier string, seed int64, results []*sym.JobRes
 		s.unsat += r.Solver.Unsat
 		s.unknown += r.Solver.Unknown
 		s.solverS += r.Solver.Time.Seconds()
-		crossQ += r.Solver.CrossQueries
-		crossD += r.Solver.CrossDisagree
 		if r.Solver.MaxQuery > maxQ {
 			maxQ = r.Solver.MaxQuery
 		}
@@ -531,7 +626,7 @@ func writeEvidence(def *CheckDef, tier string, seed int64, results []*sym.JobRes
 			"asserts_proved_by_label":       asserts,
 			"covers":                        covers,
 			"path_ends":                     pathsByEnd,
-			"solver_crosscheck":             map[string]int{"queries": crossQ, "disagreements": crossD},
+			"solver_crosscheck":             map[string]interface{}{"sampled_queries": lastCross.Queries, "solver_runs": lastCross.Runs, "agree": lastCross.Agree, "disagreements": lastCross.Disagree, "no_verdict_within_time_limit": lastCross.NoVerdict, "solvers": "z3 4.8.12, cvc5 1.0 (one-shot on the full SMT-LIB2 script of each sampled query)"},
 			"known_findings_reproduced":     knownLines,
 			"inconclusive":                  inconcl,
 			"solver":                        "primary " + smt.Primary.String() + " (-in, incremental push/pop); cross-check with the other two of {z3 4.8.12, z3 5.1.0, cvc5 1.0}",
